@@ -190,9 +190,20 @@ CHECKS['C06'] = dict(
     note='each path is one concrete namespace (the solver enumerates the skeleton); pydantic-core is compiled code and cannot be made symbolic.',
     design='DESIGN.md section 2 C06')
 
+CHECKS['C15'] = dict(
+    technique='bounded symbolic execution (z3, own executor) with the iteration order of hash containers, directory listings and input-mapping keys as nondeterministic stubs whose choice is a solver variable; model differences confirmed across real processes with different PYTHONHASHSEED',
+    text='Reduced scope. The quantifier over processes is brought inside one execution by shadowing set/frozenset (as named in conf, flowir, dsl, graph, '
+         'storage), os.listdir and glob.glob with stubs that return their elements in a decided order. Each path loads one package of a FlowIR family '
+         '(replication / platform / 0-3 user variable files in 4 orders) or a DSL namespace twice with the real loader - baseline ascending versus '
+         'everything descending, input keys descending, or exactly one of the first 200 (thorough 1400) iteration events reversed, the event index being '
+         'symbolic - and compares nodes, edges, resolved configurations, environments and memoization hashes; variable files must be layered in '
+         'the order given. A difference counts only after 12 fresh interpreters with different hash seeds reproduce it on the unmodified code.',
+    note='set literals/comprehensions and containers built inside networkx, pydantic-core or PyYAML keep this process\'s order (outside the claim); at most one '
+         'reversed event unless all are; the stub is more liberal than CPython (ints), hence the cross-process confirmation step.',
+    design='DESIGN.md section 2 C15')
+
 NOT_APPLICABLE = {
     'C07': 'round trip through the real file system, PyYAML (C) and Experiment construction: nothing on the path can be made symbolic; the technique would degenerate to example testing',
-    'C15': 'quantifies over processes with different hash seeds / directory listing orders, which are not values inside one symbolic execution',
 }
 NOT_YET = 'check not built yet in this session (planned, see DESIGN.md)'
 
